@@ -27,7 +27,10 @@ RULE = ("driver (a): case = history of 2-4 transactions over 5 private addresses
         "Keeper.EthereumTx, written back only on success, NOTHING reset between messages (the process-wide per-tx StateDB pointer is left to "
         "the code), vs go-ethereum core.ApplyMessage on the same sequence; ~45 % of the messages are rejected before execution (gas limit "
         "below intrinsic gas, wrong nonce, funds below gas*price+value) or fail in the VM; both sides observed after EVERY message (verdict, "
-        "gas, error class, return data, logs + tx hash of every log, committed balance/nonce/code/storage).  non-trivial = a rejected or "
+        "gas, error class, return data, logs + tx hash of every log, committed balance/nonce/code/storage); every message is legacy / "
+        "access-list / dynamic-fee with gas price or fee cap at / above / far above / below the base fee and tip 0 / small / = cap / above cap, "
+        "and in ~40 % of the messages the sender balance is SET (both sides) to gas*effectivePrice+value or gas*feeCap+value -1/0/+1 unibi, so "
+        "the admission decision is compared with geth's preCheck/buyGas.  non-trivial = a rejected or "
         "VM-failed message is followed later by an ordinary successful one")
 ASSUMPTIONS = [
     "the geth interpreter (shared code on both sides) is not modelled; the theorem is about every protocol-obeying call sequence",
@@ -144,6 +147,8 @@ def _msg_classes(rec):
         if n["rejected"]:
             if m.get("dnonce"):
                 out.append("rejected-nonce")
+            elif int(h["cap"]) < int(h["base"]) or int(h["cap"]) < int(h["tip"]):
+                out.append("rejected-caps")
             elif h["gas"] < _intrinsic(h):
                 out.append("rejected-intrinsic-gas")
             else:
@@ -159,9 +164,10 @@ def _msgs_case(rec):
     ob = rec["obs"]
     hdrs = []
     for h, n in zip(ob["hdrs"], ob["nib"]):
-        hdrs.append("(mk_hdr %d %s %s %s %s %s %d %d %d %d %s)" % (h["from"], _z(h["nonce"]), _z(h["gas"]), _z(h["price"]), _z(h["value"]),
-                                                                  "true" if h["create"] else "false", h["nz"], h["z"], h["al_addrs"], h["al_keys"],
-                                                                  _z(n["gas"])))
+        hdrs.append("(mk_hdr %d %s %s %s %s %s %s %s %d %d %d %d %s, %s)" % (
+            h["from"], _z(h["nonce"]), _z(h["gas"]), _z(h["base"]), _z(h["tip"]), _z(h["cap"]), _z(h["value"]),
+            "true" if h["create"] else "false", h["nz"], h["z"], h["al_addrs"], h["al_keys"], _z(n["gas"]),
+            _z(h["placed"]) if h.get("placed") else "(-1)"))
     obs = ["(%s, %s, %s)" % (_pobs(n), _pobs(g), "true" if ok else "false") for n, g, ok in zip(ob["nib"], ob["geth"], ob["hash_ok"])]
     return "(mk_msgs %s %s [%s] [%s])%%Z" % (_rows(ob["init_nib"]), _rows(ob["init_geth"]), "; ".join(hdrs), "; ".join(obs))
 
@@ -230,6 +236,18 @@ def classify(rec):
         ks = ["driver:msgs", "msgs=%d" % len(cl), "msgs:reject-then-ok" if _reject_then_ok(cl) else "msgs:no-reject-then-ok"]
         ks += ["msg:" + c for c in cl]
         ks += ["msg-to:%s" % ("create" if m["to"] < 0 else ("contract" if m["to"] < 3 else "eoa")) for m in rec["input"]["msgs"]]
+        for m, h, c in zip(rec["input"]["msgs"], rec["obs"]["hdrs"], cl):
+            typ = {0: "access-list" if m.get("al") else "legacy", 1: "access-list", 2: "dynamic-fee"}[m.get("typ", 0)]
+            ks.append("msg-type:" + typ)
+            base, tip, cap = int(h["base"]), int(h["tip"]), int(h["cap"])
+            eff = max(base, min(tip + base, cap))
+            ks.append("price:%s" % ("cap<base" if cap < base else ("tip>cap" if tip > cap else ("cap>effective" if cap > eff else ("effective=cap>base" if cap > base else "at-base")))))
+            if m.get("place"):
+                w, d = m["place"]
+                side = "below" if d < 0 else ("at" if d == 0 else "above")
+                ks.append("balance-%s-%s-limit" % (side, "effective" if w == 1 else "cap"))
+                if cap > eff and tip <= cap and cap >= base:
+                    ks.append("placed-with-cap>effective:" + ("admitted" if not c.startswith("rejected") else c))
         for i in range(1, len(cl)):
             if cl[i] == "ok" and cl[i - 1] != "ok":
                 ks.append("ok-right-after:" + cl[i - 1])
@@ -265,9 +283,53 @@ def describe(rec):
     return {"input": rec["input"], "observed": rec["obs"]}
 
 
+def _norm_rows(rows):
+    out = []
+    for r in rows:
+        if (not r["e"]) or (int(r["b"]) == 0 and r["n"] == 0 and r.get("c", 0) == 0):
+            out.append((False, 0, 0, 0, tuple(r["s"])))
+        else:
+            out.append((True, int(r["b"]), r["n"], r.get("c", 0), tuple(r["s"])))
+    return out
+
+
+def _first_divergence(rec):
+    """(index of the first message after which Nibiru and go-ethereum differ, what differs) or (None, None)"""
+    ob = rec["obs"]
+    if _norm_rows(ob["init_nib"]) != _norm_rows(ob["init_geth"]):
+        return -1, "genesis"
+    for i, (n, g, ok) in enumerate(zip(ob["nib"], ob["geth"], ob["hash_ok"])):
+        if n["rejected"] != g["rejected"]:
+            return i, "verdict"
+        if not n["rejected"] and (n["gas"], n["err"], n.get("ret") or [], n.get("logs") or []) != (g["gas"], g["err"], g.get("ret") or [], g.get("logs") or []):
+            return i, "result"
+        if not ok:
+            return i, "log-tx-hash"
+        if _norm_rows(n["state"]) != _norm_rows(g["state"]):
+            return i, "state"
+    return None, None
+
+
+def _tx_type(m):
+    return {0: "access-list" if m.get("al") else "legacy", 1: "access-list", 2: "dynamic-fee"}[m.get("typ", 0)]
+
+
 def signature(rec):
     if _is_msgs(rec):
-        return {"kind": "message-history-divergence", "classes": sorted(set(_msg_classes(rec)))}
+        # identified by the FIRST message after which the two chains differ (everything later is a consequence)
+        i, what = _first_divergence(rec)
+        if i is None or i < 0:
+            return {"kind": "message-history-divergence", "first": what or "none"}
+        h, n, g = rec["obs"]["hdrs"][i], rec["obs"]["nib"][i], rec["obs"]["geth"][i]
+        base, tip, cap = int(h["base"]), int(h["tip"]), int(h["cap"])
+        if what == "verdict" and cap < base and tip <= cap and not n["rejected"] and g["rejected"]:
+            # open finding F-B: a gas price / fee cap below the base fee is admitted and charged at the base fee
+            return {"kind": "admission", "shape": "price-below-base-fee-executed"}
+        if what == "verdict":
+            return {"kind": "admission", "shape": "nibiru-%s-geth-%s" % ("rejects" if n["rejected"] else "executes", "rejects" if g["rejected"] else "executes"),
+                    "tx_type": _tx_type(rec["input"]["msgs"][i]), "message_class": _msg_classes(rec)[i]}
+        return {"kind": "message-history-divergence", "first": what, "tx_type": _tx_type(rec["input"]["msgs"][i]),
+                "message_class": _msg_classes(rec)[i]}
     if _is_prog(rec):
         return {"kind": "program-divergence", "stmts": sorted(_prog_kinds(rec))}
     kinds = sorted({o["k"] for tx in rec["input"] for o in tx})
@@ -382,14 +444,21 @@ MANIFEST = {
                  "C03_message_history_equals_reference (+ _after_every_message): every message gets the verdict of the reference state transition "
                  "(preCheck+buyGas, intrinsic gas, one reference transaction, refundGas), executed ones the reference's return value for every "
                  "call, and the block state is the reference's world after every message; C03_rejected_message_has_no_effect; "
-                 "C03_msgs_stale_statedb_refuted: the variant clearing only on the success path is refuted by a 2-message witness. Whether "
+                 "C03_msgs_stale_statedb_refuted: the variant clearing only on the success path is refuted by a 2-message witness. "
+                 "C03_admission_equals_reference: the three tx types in one shape (base fee, tip, fee cap); with the sender balance checked against "
+                 "TxData.Cost() the ante chain admits a message exactly when go-ethereum's preCheck+buyGas does (fee cap >= base fee); "
+                 "C03_msgs_effective_cost_admission_refuted (balance checked against the effective cost) and C03_admission_below_base_fee_refuted "
+                 "(price below the base fee is admitted: finding on the pinned tree); what CheckSenderBalance compares with is re-extracted "
+                 "(C03_facts_sender_balance_check). Whether "
                  "EthereumTx defers the clear before any return following the acquisition is re-extracted from the source on every run "
                  "(C03_facts_ethereumtx_clears_statedb, C03_messages_hold_for_current_tree). Driver (c) runs generated message histories "
                  "through the real ante chain + Keeper.EthereumTx vs geth core.ApplyMessage, compared after every message (checker Pmsgs_b, "
                  "proved sound), and the message-layer model's verdicts / no-effect-on-rejection / sender nonce against Nibiru."),
         "design_ref": "DESIGN.md §5 C03",
     },
-    "level_note": ("Not proved: the interpreter; that geth core/state implements the copy-stack reference (tested three-way on every run); that the "
+    "level_note": ("OPEN FINDING on the pinned tree (known_findings.json): a message priced below the base fee is admitted and charged at the base fee "
+                   "(go-ethereum rejects it) - C03_admission_below_base_fee_refuted; the message theorems carry the side condition fee cap >= base fee. "
+                   "Not proved: the interpreter; that geth core/state implements the copy-stack reference (tested three-way on every run); that the "
                    "residual difference - Nibiru keeps touched empty accounts, geth deletes them (EIP-158), visible only through Exist/GetCodeHash on "
                    "empty accounts - cannot influence London-rules execution (argued in README, exercised by the bytecode driver). Model abstractions: "
                    "code identified with its hash (stateObject.code byte cache not modelled), linear instead of binary search of validRevisions, "
